@@ -572,3 +572,27 @@ where
   fn complete(self) { self.observer.complete() }
   fn is_finished(&self) -> bool { self.observer.is_finished() }
 }
+
+// ---------------------------------------------------------------- C13
+/// a "builder" that subscribes right away
+pub fn eager_builder<S, O>(source: S, observer: O) -> S::Unsub
+where
+  S: Observable<i32, (), O>,
+  O: Observer<i32, ()>,
+{
+  source.actual_subscribe(observer)
+}
+/// an operator that keeps its counter in the operator value, behind an Rc
+#[derive(Clone)]
+pub struct CountingOp<S> { source: S, seen: std::rc::Rc<std::cell::Cell<usize>> }
+impl<S, Item, Err, O> Observable<Item, Err, O> for CountingOp<S>
+where
+  S: Observable<Item, Err, O>,
+  O: Observer<Item, Err>,
+{
+  type Unsub = S::Unsub;
+  fn actual_subscribe(self, observer: O) -> Self::Unsub {
+    self.seen.set(self.seen.get() + 1);
+    self.source.actual_subscribe(observer)
+  }
+}
